@@ -85,7 +85,12 @@ def gen(tier, idx):
         elif k == 'popkeys': ops.append(['popkeys', [K() for _ in range(r.choice([1, 2]))]])
         elif k == 'dumpk': ops.append(['dumpk', [K() for _ in range(r.choice([1, 2]))]])
         else: ops.append([k])
-    if cached: ops.append(['dump'])
+    if cached:
+        ops.append(['dump'])
+        if r.random() < 0.5 and len(values) > 1:
+            # an entry the archive already holds gets a new value and only that key is written back: the last word on it
+            k0 = K(); v1, v2 = r.sample(values, 2)
+            ops += [['setitem', k0, v1], ['dump'], ['setitem', k0, v2], ['dumpk', [k0]]]
     return dict(kind=kind, codec=codec, opts=opts, cached=cached, bytecode=bytecode), ops
 
 
